@@ -56,6 +56,10 @@ type HarnessSpec struct {
 	Outside    string              `json:"outside"`
 	Assumes    []string            `json:"assumptions"`
 	NativeStub []string            `json:"native_stub_files"` // extra overlay files for replay (relative to harness dir) "repo/rel/path.go=file"
+
+	// targets of //verif:model directives: redirected in the symbolic world only
+	// (standard-library functions: no native trampoline; the native run uses the real one)
+	modelTargets map[string]bool
 }
 
 type PropertySpec struct {
@@ -86,6 +90,7 @@ func (h *HarnessSpec) PkgDir() string {
 
 var pkgClause = regexp.MustCompile(`(?m)^package\s+(\w+)`)
 var stubDirective = regexp.MustCompile(`(?m)^//verif:stub\s+(\S+)\s*=>\s*(\S+)`)
+var modelDirective = regexp.MustCompile(`(?m)^//verif:model\s+(\S+)\s*=>\s*(\S+)`)
 
 // Overlay builds the overlay (virtual path -> content) for the harness files
 // plus the runtime file of the given world ("symbolic" or "native").
@@ -105,6 +110,13 @@ func (h *HarnessSpec) Overlay(hdir, world string) (map[string][]byte, string, ma
 		pkgName = string(m[1])
 		for _, d := range stubDirective.FindAllSubmatch(src, -1) {
 			stubs[string(d[1])] = string(d[2])
+		}
+		for _, d := range modelDirective.FindAllSubmatch(src, -1) {
+			stubs[string(d[1])] = string(d[2])
+			if h.modelTargets == nil {
+				h.modelTargets = map[string]bool{}
+			}
+			h.modelTargets[string(d[1])] = true
 		}
 		base := strings.TrimSuffix(filepath.Base(f), ".go")
 		ov[filepath.Join(h.PkgDir(), "zz_verif_"+base+".go")] = src
